@@ -1,7 +1,7 @@
 (* C03 - Middlewares nest in the documented M-shaped order. *)
 From Coq Require Import List String Bool Arith.
 Import ListNotations.
-From ClasticV Require Import Base.Py Base.FSet Gen.Tables Model.Chain Model.Exec
+From ClasticV Require Import Gen.ChainShape Base.Py Base.FSet Gen.Tables Model.Chain Model.Exec
      Proofs.ChainProofs Proofs.ExecProofs Proofs.RouteProofs Proofs.OnionProofs Proofs.ValueProofs Proofs.NestedProofs.
 Local Open Scope string_scope.
 Local Open Scope list_scope.
@@ -143,3 +143,21 @@ Example C03_example_M_shape :
                                (ECtx "C") (RResp "R")) pl (base_env c3_cfg))) =
   [FMw PhReq 0; FMw PhReq 1; FMw PhEp 0].
 Proof. eexists. split; [vm_compute; reflexivity|]. vm_compute. auto. Qed.
+
+(* obligation on the source: the control-flow skeletons of merge_middlewares, regenerated from the source on every run.  The model is a
+   hand transcription of exactly these statements: any edit re-opens the correspondence question (the check then searches
+   for a failing input and reports what it finds) *)
+Theorem C03_merge_shape :
+  SK_MERGE_MIDDLEWARES =
+  ["old = list(old)";
+   "merged = list(new)";
+   "for mw in old";
+   "  if mw.unique and mw in merged";
+   "    if mw.reorderable";
+   "      continue";
+   "    else";
+   "      raise ValueError('multiple inclusion of unique middleware %r' % mw.name)";
+   "  merged.append(mw)";
+   "return merged"].
+Proof. repeat split; reflexivity. Qed.
+Print Assumptions C03_merge_shape.
